@@ -153,7 +153,13 @@ func runLifetime(c *sim.RunCtx, pp *persistPlan, m *media, o *lifetimeOpts) *lif
 		if o.noEarly {
 			c.Picker.NoEarly = true
 		}
-		e := buildStoreParts(c, s, cfg, m, o.proc, pp.seed+int64(o.proc)*7717)
+		var e *storeEnv
+		if cfg.WConfig {
+			e = buildStoreConfig(c, s, cfg, m, o.proc, pp.seed+int64(o.proc)*7717)
+			c.Count("probe_wconfig_lifetime", 1)
+		} else {
+			e = buildStoreParts(c, s, cfg, m, o.proc, pp.seed+int64(o.proc)*7717)
+		}
 		defer e.close()
 		if o.faults {
 			// (after start-up: an I/O error while reading the state file makes
@@ -165,7 +171,12 @@ func runLifetime(c *sim.RunCtx, pp *persistPlan, m *media, o *lifetimeOpts) *lif
 			m.dir.Faults = &sim.DirFaults{OpErr: de, T: ft}
 		}
 		w := &storeWorld{c: c, s: s, cfg: cfg, e: e, ctx: context.Background(), insts: pp.insts, m: o.model}
-		w.allocs = func() int { return o.baseAllocs + e.alloc.Allocs }
+		w.allocs = func() int {
+			if e.alloc == nil {
+				return o.baseAllocs
+			}
+			return o.baseAllocs + e.alloc.Allocs
+		}
 		lt.w = w
 		lastVersion := mediaVersion(m)
 		takePoint := func(why string) *crashPoint {
